@@ -695,6 +695,9 @@ class Evaluator:
             return Scalar(A.sym(f'{a.path} >> {b.name if isinstance(b, EnumVal) else b.path}'))
         if isinstance(op, ast.LShift) and isinstance(a, SymObj):
             return a
+        if isinstance(op, (ast.Add, ast.Mod, ast.Mult)) and (
+                (isinstance(a, Const) and isinstance(a.value, str)) or (isinstance(b, Const) and isinstance(b.value, str))):
+            return Const('<str>')
         if isinstance(op, (ast.BitOr, ast.BitAnd)):
             x, y = self.scalar(a), self.scalar(b)
             if x.is_const() and y.is_const():
